@@ -205,6 +205,7 @@ impl<Sink: TokenSink> XmlTokenizer<Sink> {
 
         if self.discard_bom.get() {
             if let Some(c) = input.peek() {
+                self.discard_bom.set(false);
                 if c == '\u{feff}' {
                     input.next();
                 }
